@@ -1,6 +1,7 @@
 (* C03 model driver.  Case (one line):
      role=<leech|leechdone|seed|iseed|meta> np=<n> bits=<01..|-> pre=<0|1> cu=<0|1> xv=<01..|-> ho=<hex|-> stream=<hex|-> segs=<seg>/<seg>/...
        seg ::= k<cap>:<len>,<len>,...      (cap 0 = unlimited; the lens partition `stream`)
+     eof=1 (optional): the peer closes its end after the last segment (remote close: digest closed=1)
      ho = bytes handed over from the handshake (push_unread + one event_read on an empty socket)
    Output: one digest per segmentation joined by " / ", then " || " + the effect sequence of the
    whole-stream decode (not compared with the implementation). *)
@@ -18,7 +19,7 @@ let show_msg m = match m with
   | MBitsDone -> "BITSDONE"
 let show_reason r = match r with
   | RLen -> "len" | RUnknownId -> "id" | RPieceRole -> "piece-role" | RPieceShort -> "piece-short"
-  | RExtBad -> "ext" | RFull -> "full" | RHandler -> "handler"
+  | RExtBad -> "ext" | RFull -> "full" | RHandler -> "handler" | REof -> "eof"
 let show_eff e = match e with EMsg m -> show_msg m | EClose r -> "CLOSE:" ^ show_reason r | EFatal -> "FATAL"
 let b01 b = if b then "1" else "0"
 let show_digest h mode buf =
@@ -50,6 +51,7 @@ let () = each_line (fun line ->
   let c = { c_role = role; c_npieces = n_of_int np; c_done = isdone; c_can_unchoke = (g "cu" = "1");
             c_ext_verdicts = bits_of (g "xv") } in
   let h0 = hinit c bits0 pre pre false in
+  let eof = (try Hashtbl.find kv "eof" with Not_found -> "0") = "1" in
   let ho = bytes_of_hex (g "ho") in
   let stream = bytes_of_hex (g "stream") in
   let one seg =
@@ -60,10 +62,14 @@ let () = each_line (fun line ->
     let segs = cut stream lens in
     let budget = if capv = 0 then (fun _ -> nat_of_int 100000) else (let b = nat_of_int (capv - 1) in fun _ -> b) in
     match run_real c budget (fun _ -> false) h0 ho segs with
-    | MRet (s, _, _) -> show_digest s.m_h s.m_mode s.m_buf
+    | MRet (s, _, _) ->
+        let s = if eof then fst (close_eof s) else s in
+        show_digest s.m_h s.m_mode s.m_buf
     | MFault -> "FAULT" | MOut -> "OUTOFFUEL" in
   let digs = List.map one (String.split_on_char '/' (g "segs")) in
   let (spec, effs) = match decode_real c h0 (ho @ stream) with
-    | PRes (h, m, b, es) -> (show_digest h m b, String.concat " " (List.map show_eff es))
+    | PRes (h, m, b, es) ->
+        ((if eof then "closed=1" else show_digest h m b),
+         String.concat " " (List.map show_eff es) ^ (if eof && m <> RClosed then " CLOSE:eof" else ""))
     | PFault -> ("FAULT", "FAULT") | POut -> ("OUTOFFUEL", "OUTOFFUEL") in
   String.concat " / " digs ^ " || spec: " ^ spec ^ " ;; " ^ effs)
